@@ -266,4 +266,92 @@ ShapeOf(A) ==
       order  |-> IF sorts = <<>> THEN 0 ELSE Len(sorts[Len(sorts)].cols),
       offset |-> IF empty THEN 0 ELSE w.lo - 1,
       limit  |-> IF takes = <<>> \/ w.hi = -1 THEN -1 ELSE IF empty THEN 0 ELSE w.hi - w.lo + 1]
+
+\* ======================================================================
+\* Part D - preprocess: RQ pipeline -> PQ pipeline (distinct, union, reorder)
+\* ======================================================================
+\* the frame (column ids, in order) after the first i transforms of an RQ pipeline
+RECURSIVE FrameAt(_, _)
+FrameAt(p, i) ==
+  IF i = 0 THEN <<>>
+  ELSE LET t == p[i] prev == FrameAt(p, i - 1) IN
+       CASE t.k = "From" -> t.cols
+         [] t.k = "Join" -> prev \o t.cols
+         [] t.k = "Select" -> t.cols
+         [] t.k = "Aggregate" -> t.part \o t.comp
+         [] t.k = "Compute" /\ t.cx # "aggregation" -> Append(prev, t.id)
+         [] OTHER -> prev
+NonCompute(p) == Filt(p, LAMBDA t : t.k # "Compute")
+IsGroupTake(t) == t.k = "Take" /\ t.part # <<>>
+\* position in p of the n-th non-Compute transform
+RECURSIVE NthNC(_, _, _)
+NthNC(p, n, i) == IF p[i].k # "Compute" THEN (IF n = 1 THEN i ELSE NthNC(p, n - 1, i + 1)) ELSE NthNC(p, n, i + 1)
+
+\* every column the transforms after position i mention is a partition column of the take at i, or is defined after it
+\* (then the rows of a group differ only in columns nobody looks at any more, and DISTINCT over the partition columns
+\* is one row per group)
+Mentioned(t) == Set(t.refs) \cup Set(t.wrefs) \cup Set(t.part) \cup Set(t.comp)
+                \cup (IF t.k \in {"Select", "Sort", "Take"} THEN Set(t.cols) ELSE {})
+DeadAfter(p, i) ==
+  LET new == { p[j].id : j \in { j \in i + 1 .. Len(p) : p[j].k = "Compute" } }
+             \cup UNION { Set(p[j].cols) : j \in { j \in i + 1 .. Len(p) : p[j].k \in {"Join", "Append"} } }
+  IN \A j \in i + 1 .. Len(p) : Mentioned(p[j]) \subseteq Set(p[i].part) \cup new
+
+\* what a group-take (rq::Take with a partition) may become, and when
+\*   DISTINCT            : the first row of each group of *whole* rows, no order inside the group
+\*   DISTINCT ON (part)  : one row per group
+\*   ROW_NUMBER + filter : always
+GroupTakeVerdict(p, i, o) ==       \* p: RQ pipeline, i: position of the take in p, o: the PQ transforms it became
+  LET t == p[i] IN
+  IF o[1].k = "Distinct" THEN
+       IF ~(t.lo \in {-1, 1} /\ t.hi = 1) THEN "distinct-range"
+       ELSE IF t.sorted THEN "distinct-sorted"
+       ELSE IF Set(t.part) # Set(FrameAt(p, i - 1)) /\ ~DeadAfter(p, i)
+            \* (the code compares the partition with the select list at the END of the pipeline: finding F99)
+            THEN IF Set(t.part) = Set(FrameAt(p, Len(p))) THEN "distinct-not-whole-row" ELSE "distinct-partition-mismatch"
+       ELSE "ok"
+  ELSE IF o[1].k = "Sort" /\ ~o[1].sup /\ Len(o) >= 2 /\ o[2].k = "DistinctOn" THEN
+       IF t.hi # 1 THEN "distinct-on-range"
+       ELSE IF Set(o[2].part) # Set(t.part) THEN "distinct-on-partition"
+       ELSE "ok"
+  ELSE IF o[1].k = "Filter" THEN "ok"
+  ELSE "group-take-lost"
+
+\* walk the non-Compute transforms of the RQ pipeline and of the PQ pipeline side by side
+RECURSIVE PreMatch(_, _, _, _)
+PreMatch(p, n, inp, out) ==        \* n: how many non-Compute transforms of p have been consumed
+  IF inp = <<>> THEN (IF out = <<>> THEN "ok" ELSE "extra-transform")
+  ELSE IF out = <<>> THEN "transform-lost"
+  ELSE LET a == Head(inp) b == Head(out) IN
+    IF b.k \in {"Except", "Intersect"} THEN "ok"               \* set-operation recognition: not modelled, the rest is not judged
+    ELSE IF IsGroupTake(a) THEN
+         LET v == GroupTakeVerdict(p, NthNC(p, n + 1, 1), out)
+             used == IF b.k = "Sort" /\ ~b.sup THEN 2 ELSE 1
+         IN IF v # "ok" THEN v ELSE PreMatch(p, n + 1, Tail(inp), SubSeq(out, used + 1, Len(out)))
+    ELSE IF a.k = "Append" THEN
+         IF b.k # "Union" THEN "append-lost"
+         ELSE IF b.sorted     \* (Union.distinct is carried in `sorted`): the de-duplication that follows is absorbed
+              THEN IF Len(inp) >= 2 /\ IsGroupTake(inp[2]) THEN PreMatch(p, n + 2, Tail(Tail(inp)), Tail(out)) ELSE "union-distinct-without-distinct"
+              ELSE PreMatch(p, n + 1, Tail(inp), Tail(out))
+    ELSE IF a.k # b.k THEN "kind-changed"
+    ELSE IF a.k = "Take" /\ (a.lo # b.lo \/ a.hi # b.hi) THEN "take-range"
+    ELSE IF a.k = "Sort" /\ a.cols # b.cols THEN "sort-keys"
+    ELSE IF a.k = "Aggregate" /\ (a.part # b.part \/ a.comp # b.comp) THEN "aggregate"
+    ELSE IF a.k = "Select" /\ a.cols # b.cols THEN "select"
+    ELSE PreMatch(p, n + 1, Tail(inp), Tail(out))
+
+\* transforms a Compute may not cross: everything except sorts, and takes for a plain Compute
+Barrier(t, c) == t.k # "Compute" /\ ~(t.k = "Sort") /\ ~(t.k = "Take" /\ t.part = <<>> /\ c.cx = "plain")
+BarriersBefore(p, i) == Cardinality({ j \in 1 .. i - 1 : Barrier(p[j], p[i]) })
+PosOf(p, id) == CHOOSE i \in 1 .. Len(p) : p[i].k = "Compute" /\ p[i].id = id
+ComputesStay(inp, out) ==
+  \/ \E j \in 1 .. Len(out) : out[j].k \in {"Except", "Intersect"} \/ (out[j].k = "Union" /\ out[j].sorted)
+  \/ \A i \in 1 .. Len(inp) : inp[i].k = "Compute" =>
+        /\ \E j \in 1 .. Len(out) : out[j].k = "Compute" /\ out[j].id = inp[i].id
+        /\ BarriersBefore(out, PosOf(out, inp[i].id)) = BarriersBefore(inp, i)
+PreVerdict(inp, out) ==
+  LET m == PreMatch(inp, 0, NonCompute(inp), NonCompute(out)) IN
+  IF m # "ok" THEN m ELSE IF ~ComputesStay(inp, out) THEN "compute-moved" ELSE "ok"
+\* the code's own pipeline is a fixpoint of the reorder pass
+PreDrift(out) == Reorder(out) # out
 =============================================================================
